@@ -46,8 +46,12 @@ def run_case(spec):
 def _run_case(spec):
     vs = []
     domain, ms, value = spec["domain"], spec["matcher"], spec["value"]
-    with ML.Env(spec.get("fs")) as env:
+    with ML.Env(spec.get("fs"), defer=True) as env:
         env.dict_flavour = spec.get("dict_flavour", "dict")      # dict subclasses with __missing__ are dicts too
+        # a matcher constructed while the scratch directory is still empty: what it says later depends on the
+        # file system at match time, not at construction time
+        early = ML.build(ms, env) if spec.get("fs") is not None else None
+        env.populate()
         try:
             want = ML.ref(ms, value, env)
         except ML.Propagates as p:
@@ -98,6 +102,11 @@ def _run_case(spec):
         k3, r3 = do(m3, ML.live_value(domain, value, env))
         if (k3, r3 is None) != (kind, got):
             vs.append(V("determinism", "rebuilt-" + top, "a rebuilt, structurally equal matcher gives a different verdict"))
+        if early is not None:
+            k4, r4 = do(early, ML.live_value(domain, value, env))
+            if (k4, r4 is None) != (kind, got):
+                vs.append(V("determinism", "built-before-the-files-existed-" + top,
+                            "a structurally equal matcher constructed before the files were created gives a different verdict"))
         if ML.snapshot(matcher) != snap_m:
             vs.append(V("side-effect", "matcher-" + top, "match() modified the matcher: %s -> %s" % (snap_m[:300], ML.snapshot(matcher)[:300])))
         if snap_v is not None and ML.snapshot(live) != snap_v:
@@ -130,6 +139,34 @@ def _enum(max_leaves):
             for v in values:
                 yield {"domain": "list", "matcher": t, "value": v, "fs": None}
     return gen
+
+
+def _enum_nested():
+    """Every (outer, inner) pair of list combinators over lists of lists, including the empty ones: an inner
+    combinator's verdict on an empty sequence / with no matchers must survive under every parent."""
+    M = ML.M
+    leaves = [M("Equals", "int", k=1), M("Always", "int"), M("Never", "int")]
+    inners = [M("MatchesAny", "list", inner=[]), M("MatchesAll", "list", inner=[], first_only=False),
+              M("MatchesListwise", "list", inner=[], first_only=False), M("MatchesSetwise", "list", inner=[], share=False)]
+    for lf in leaves:
+        inners += [M("AnyMatch", "list", inner=lf), M("AllMatch", "list", inner=lf), M("Not", "list", inner=M("AnyMatch", "list", inner=lf)),
+                   M("MatchesAny", "list", inner=[M("AnyMatch", "list", inner=lf)]),
+                   M("MatchesListwise", "list", inner=[lf], first_only=False), M("MatchesSetwise", "list", inner=[lf], share=False)]
+    inner_values = [[], [0], [1], [0, 1], [1, 1]]
+    values = [list(t) for n in range(0, 3) for t in itertools.product(inner_values, repeat=n)]
+    for x in inners:
+        outers = [M("AllMatch", "list", inner=x), M("AnyMatch", "list", inner=x), M("Not", "list", inner=M("AllMatch", "list", inner=x)),
+                  M("MatchesListwise", "list", inner=[x, x], first_only=False), M("MatchesListwise", "list", inner=[x], first_only=True),
+                  M("MatchesSetwise", "list", inner=[x, x], share=False), M("MatchesAll", "list", inner=[M("AllMatch", "list", inner=x)], first_only=True),
+                  M("Annotate", "list", inner=M("AllMatch", "list", inner=x), note="n", if_message=False)]
+        for o in outers:
+            for v in values:
+                yield {"domain": "list", "matcher": o, "value": v, "fs": None}
+        for v in inner_values:
+            yield {"domain": "dict", "matcher": M("MatchesDict", "dict", inner={"k": x}), "value": {"k": v}, "fs": None}
+            yield {"domain": "dict", "matcher": M("ContainsDict", "dict", inner={"k": x}), "value": {"k": v, "j": [0]}, "fs": None}
+            yield {"domain": "obj", "matcher": M("MatchesStructure", "obj", a=x, b=None, update=None), "value": {"a": v, "b": 0}, "fs": None}
+            yield {"domain": "list", "matcher": M("AfterPreprocessing", "list", fn="sorted", inner=x, annotate=True), "value": v, "fs": None}
 
 
 def _enum_fs_and_raises():
@@ -169,6 +206,9 @@ def subchecks(tier):
         Sub("random_trees", run_case, s_case(), 4000 if q else 300000),
         Sub("filesystem_and_raises_grid", run_case, enum=_enum_fs_and_raises, enum_complete=True,
             note="HasPermissions x 5 modes x 6 octal strings; 12 filesystem leaves x 9 paths; Raises/raises x 8 callables x 10 expected classes"),
+        Sub("nested_combinators_with_empties", run_case, enum=_enum_nested, enum_complete=True,
+            note="22 inner list combinators (incl. MatchesAny() / MatchesAll() / AnyMatch on []) under 8 list parents x 31 "
+                 "lists of lists, and under MatchesDict / ContainsDict / MatchesStructure / AfterPreprocessing"),
         Sub("enumerated_list_combinators", run_case, enum=_enum(2 if q else 3), enum_complete=True,
             note="AllMatch/AnyMatch/Not(AnyMatch)/MatchesSetwise/MatchesListwise over every tuple of <= %d leaves from a "
                  "9-leaf int alphabet x every list over {0,1,2} of length <= 3" % (2 if q else 3)),
